@@ -197,6 +197,21 @@ func snapshotsImpl(a map[string]any) any {
 		}
 	}
 	write(a["before"])
+	norm, _ := a["norm"].(bool)
+	follow, _ := a["follow"].(bool)
+	// files reachable only through a directory symlink (target outside the recorded directory)
+	extDir := filepath.Join(scratch(), "snap-ext")
+	safeRemoveAll(extDir)
+	mkExt := func() {
+		if em, ok := a["ext"].(map[string]any); ok && len(em) > 0 {
+			os.MkdirAll(extDir, 0o755)
+			for n, c := range em {
+				os.WriteFile(filepath.Join(extDir, n), []byte(str(c)), 0o644)
+			}
+			os.Symlink(extDir, filepath.Join(base, "lnk"))
+		}
+	}
+	mkExt()
 	os.Chdir(base)
 	defer os.Chdir(origWD)
 	names := func(m map[string]intoto.HashObj) map[string]any {
@@ -209,7 +224,7 @@ func snapshotsImpl(a map[string]any) any {
 	key := pool()[4].Full
 	out := map[string]any{}
 	// run
-	md, err := intoto.InTotoRun("s", "", []string{"."}, []string{"."}, anyStrs(a["cmd"]), key, []string{"sha256"}, nil, nil, false, false, false)
+	md, err := intoto.InTotoRun("s", "", []string{"."}, []string{"."}, anyStrs(a["cmd"]), key, []string{"sha256"}, nil, nil, norm, follow, false)
 	if err != nil {
 		return map[string]any{"res": "err"}
 	}
@@ -221,8 +236,9 @@ func snapshotsImpl(a map[string]any) any {
 	safeRemoveAll(base)
 	os.MkdirAll(base, 0o755)
 	write(a["before"])
+	mkExt()
 	os.Chdir(base)
-	start, err := intoto.InTotoRecordStart("s", []string{"."}, key, []string{"sha256"}, nil, nil, false, false, false)
+	start, err := intoto.InTotoRecordStart("s", []string{"."}, key, []string{"sha256"}, nil, nil, norm, follow, false)
 	if err != nil {
 		return map[string]any{"res": "err"}
 	}
@@ -230,7 +246,7 @@ func snapshotsImpl(a map[string]any) any {
 	for _, d := range anyStrs(a["dels"]) {
 		os.Remove(filepath.Join(base, d))
 	}
-	stop, err := intoto.InTotoRecordStop(start, []string{"."}, key, []string{"sha256"}, nil, nil, false, false, false)
+	stop, err := intoto.InTotoRecordStop(start, []string{"."}, key, []string{"sha256"}, nil, nil, norm, follow, false)
 	if err != nil {
 		return map[string]any{"res": "err"}
 	}
@@ -539,15 +555,33 @@ func runC13(r *Runner, tier string, rng *Rng) {
 	flush()
 	// before/after discipline of run and record start/stop (model: materials = before, products = after)
 	for i := 0; i < n/10; i++ {
+		// contents with CR / CR-LF line ends (the normalisation switch changes their digest), a
+		// directory symlink to a directory outside (the follow switch decides whether its files are
+		// recorded), every combination of the two switches — the SAME for materials and products
+		// (seeded change c13-record-stop-swaps-switches)
+		content := func() string {
+			if rng.Chance(50) {
+				return genStr(rng, 0) + rng.Pick([]string{"\r\n", "\r", "\r\nx\ry\n", "\n"}) + genStr(rng, 0)
+			}
+			return genStr(rng, 0)
+		}
 		before := map[string]any{}
 		for k := 1 + rng.Intn(3); k > 0; k-- {
-			before[rng.Pick([]string{"a", "b", "c"})] = genStr(rng, 0)
+			before[rng.Pick([]string{"a", "b", "c"})] = content()
+		}
+		norm, follow := rng.Bool(), rng.Bool()
+		ext := map[string]any{}
+		if rng.Chance(60) {
+			ext["e.txt"] = content()
+			if rng.Bool() {
+				ext["f"] = content()
+			}
 		}
 		writes := map[string]any{}
 		var dels []any
 		script := ""
 		for k := rng.Intn(3); k > 0; k-- {
-			f, c := rng.Pick([]string{"a", "b", "new"}), genStr(rng, 0)
+			f, c := rng.Pick([]string{"a", "b", "new"}), content()
 			writes[f] = c
 			script += "printf %s " + shq(c) + " > " + shq(f) + "; "
 		}
@@ -582,8 +616,22 @@ func runC13(r *Runner, tier string, rng *Rng) {
 		}
 		// the model (Verify.runStep) computes all four snapshots from the digests of the directory
 		// before the command and of what the command writes and deletes
+		dgn := func(m map[string]any, prefix string, normalise bool) map[string]any {
+			r := map[string]any{}
+			for k, v := range m {
+				c := str(v)
+				if normalise {
+					c = strings.ReplaceAll(strings.ReplaceAll(c, "\r\n", "\n"), "\r", "\n")
+				}
+				r[prefix+k] = sha256hex(c)
+			}
+			return r
+		}
 		batch = append(batch, Case{Op: "snapshots", Args: map[string]any{"before": before, "writes": writes, "dels": dels, "cmd": []any{"sh", "-c", script + "true"},
-			"before_d": dg(before), "writes_d": dg(writes)}, Feat: fmt.Sprintf("snap:%d:%d", len(writes), len(dels))})
+			"norm": norm, "follow": follow, "ext": ext,
+			"before_d": dg(before), "writes_d": dg(writes), "before_dn": dgn(before, "", true), "writes_dn": dgn(writes, "", true),
+			"ext_d": dgn(ext, "lnk/", false), "ext_dn": dgn(ext, "lnk/", true)},
+			Feat: fmt.Sprintf("snap:%d:%d:n%v:f%v:e%d", len(writes), len(dels), norm, follow, len(ext))})
 		if len(batch) >= 20 {
 			flush()
 		}
@@ -596,5 +644,5 @@ func runC13(r *Runner, tier string, rng *Rng) {
 		}
 	}
 	flush()
-	r.St.Rule = "generated directory trees (depth <= 4, empty / binary / CR-LF-mix contents, symlinks to files and to symlink-free directories, dangling links, 1-2 roots incl. unclean and missing root paths and single-file roots), every subset class of sha256/384/512 plus unknown names and the empty list, normalisation and follow switches, gitignore-style exclude patterns (verdict = go-pathspec oracle), strip prefixes (symlink-free trees; 1-3 prefixes, also such that the remainder after the first match starts with another prefix; names colliding after stripping with different and with identical content); digests from crypto/sha*; plus: normalisation against the model's byte function, match-products three-way difference (requested algorithms and the link's hash objects over equal and different algorithm sets), before/after discipline of run and record start/stop, symlink cycles (error or correct record, never crash/hang). Class = (switches, shapes, outcome prefix)."
+	r.St.Rule = "generated directory trees (depth <= 4, empty / binary / CR-LF-mix contents, symlinks to files and to symlink-free directories, dangling links, 1-2 roots incl. unclean and missing root paths and single-file roots), every subset class of sha256/384/512 plus unknown names and the empty list, normalisation and follow switches, gitignore-style exclude patterns (verdict = go-pathspec oracle), strip prefixes (symlink-free trees; 1-3 prefixes, also such that the remainder after the first match starts with another prefix; names colliding after stripping with different and with identical content); digests from crypto/sha*; plus: normalisation against the model's byte function, match-products three-way difference (requested algorithms and the link's hash objects over equal and different algorithm sets), before/after discipline of run and record start/stop under every combination of the two switches (contents with CR / CR-LF line ends, a directory symlink to a directory outside), symlink cycles (error or correct record, never crash/hang). Class = (switches, shapes, outcome prefix)."
 }
